@@ -33,7 +33,8 @@ class C07(ServerPlugin):
     rule = ("case = (protocol h1/h2/auto, transport, event list: connects of 0..8 clients (hyper h1 / hyper h2 / h2 with a cut "
             "preface / silent raw), requests advanced stage by stage (cut head, head, body rest, handler release, response "
             "end), the shutdown signal at a scripted position, wind-down of every unfinished request, late connects and "
-            "late requests) against the real Server::with_graceful_shutdown with logging acceptor / protocol / executor "
+            "late requests; the signal resolved from inside the accept loop by the make-service while a burst of connects is "
+            "queued; server buffer cap / client buffer sizes as hidden variation) against the real Server::with_graceful_shutdown with logging acceptor / protocol / executor "
             "wrappers; per stretch between quiescent points the multiset of observable events is compared with the model, "
             "and mon_C07 judges the implementation's log; non-trivial = at least one request, fault or cancelled connect; "
             "distinct = distinct case lines")
@@ -78,7 +79,19 @@ class C07(ServerPlugin):
         elif rng.random() < 0.6:
             pre.append(("S", None))
         mid = []
-        if signal:
+        burst_kind = "C2" if proto == "h2" else "C1"
+        if signal and tr in ("duplex", "dtls") and rng.random() < 0.25:
+            # the signal resolves INSIDE the accept loop: the make-service resolves it while it admits the
+            # (n+1)-th of a burst of queued connects; the rest of the burst must not be accepted
+            m = rng.choice([2, 2, 3, 4, 6])
+            n = rng.randrange(m)
+            burst = [(rng.choice([burst_kind, burst_kind, "X"]), "late") for _ in range(m)]
+            arm = (f"K{n}", None)
+            mid = ([arm] + burst) if rng.random() < 0.7 else (burst[:1] + [arm] + burst[1:])
+            mid.append(("S", None))
+            if rng.random() < 0.3:
+                mid.append(("G", None))
+        elif signal:
             mid.append(("G", None))
             if rng.random() < 0.5:
                 mid.append(("S", None))
@@ -102,7 +115,13 @@ class C07(ServerPlugin):
                 evs.append(t)
             else:
                 evs.append(f"{t}{ids[who]}")
-        return {"mode": "g", "proto": proto, "tr": tr, "evs": evs}
+        case = {"mode": "g", "proto": proto, "tr": tr, "evs": evs}
+        if tr in ("duplex", "dtls") and rng.random() < 0.3:
+            # variation the model abstracts from: server-side buffer cap, buffer size the clients ask for
+            case["cap"] = rng.choice([65536, 4096])
+            case["evs"] = [t + rng.choice(["", ":4096", ":65536"]) if t in ("C1", "C2")
+                           else (t + rng.choice(["", ":0", ":1"]) if t == "C0" else t) for t in evs]
+        return case
 
     def generate(self, tier, rng):
         cases = []
@@ -125,6 +144,22 @@ class C07(ServerPlugin):
                         ["S", "G", "S", k, "S"], [k, "X", "S", k, "G", k, "S"], ["X", "G", "S"], ["G", "S"], ["S"],
                         [k, "S", "L", "S", "G", "S"], [k, "S", "M", k, "S", "G", "S"]):
                 cases.append({"mode": "g", "proto": proto, "tr": "duplex", "evs": evs})
+        # the signal resolves inside the accept loop (the make-service resolves it while admitting the
+        # (n+1)-th queued connect): k queued connects, every n; with and without an exchange in flight,
+        # a cancelled connect in the burst, the arm placed before / inside the burst, a late outside signal
+        for proto, k in (("h1", "C1"), ("h2", "C2"), ("auto", "C1"), ("auto", "C2"), ("auto", "C3")):
+            for m in (2, 3, 4):
+                for n in range(m):
+                    burst = [k] * m
+                    cases.append({"mode": "g", "proto": proto, "tr": "duplex", "evs": [f"K{n}"] + burst + ["S"]})
+                    cases.append({"mode": "g", "proto": proto, "tr": "duplex",
+                                  "evs": [k, "R0", "T0", f"K{n}"] + burst + ["S", "T0", "T0", "S"]})
+                    cases.append({"mode": "g", "proto": proto, "tr": "duplex",
+                                  "evs": ["S"] + burst[:1] + [f"K{n}"] + ["X"] + burst[1:] + ["S", "G", "S"]})
+            cases.append({"mode": "g", "proto": proto, "tr": "duplex", "evs": ["K0", "M", k, k, "S", k, "S"]})
+            cases.append({"mode": "g", "proto": proto, "tr": "duplex", "evs": ["K1", k, "S", k, k, k, "S", "R0", "S"]})
+            cases.append({"mode": "g", "proto": proto, "tr": "dtls", "evs": ["K0", k, k, k, "S"]})
+            cases.append({"mode": "g", "proto": proto, "tr": "duplex", "evs": ["K5", k, k, "S", "G", "S"]})
         # the known finding D18, kept small on purpose (see known_match)
         cases.append({"mode": "g", "proto": "h2", "tr": "duplex", "evs": ["C0", "S", "G", "S"]})
         cases.append({"mode": "g", "proto": "h2", "tr": "duplex", "evs": ["C2", "C3", "R0", "S", "G", "S", "T0", "T0", "T0", "S"]})
@@ -149,7 +184,7 @@ class C07(ServerPlugin):
         n = 0
         for t in case["evs"]:
             if t in KINDS:
-                if t in ("C0", "C3"):
+                if t.split(":")[0] in ("C0", "C3"):
                     silent.append(n)
                 n += 1
         patched, hit = [], False
